@@ -58,9 +58,12 @@ pub fn compare(h: &Hello, o: &Obs) -> Vec<(String, String)> {
         let mut r = ja4(h, orig);
         // where the published revisions differ (punctuation at the ends of the first ALPN value) either reading is right
         if crate::refm::ja4::alpn_has_two_readings(h) {
-            let r2 = crate::refm::ja4::ja4_reading(h, orig, true);
-            if got.2 == r2.a {
-                r = r2;
+            for reading in [1u8, 2] {
+                let r2 = crate::refm::ja4::ja4_reading(h, orig, reading);
+                if got.2 == r2.a {
+                    r = r2;
+                    break;
+                }
             }
         }
         let tag = if orig { "ja4_o" } else { "ja4" };
@@ -330,7 +333,7 @@ pub fn families(thorough: bool) -> Vec<Hello> {
     }
     // F3: signature-algorithm orders with GREASE inside x ALPN lists x SNI presence
     let sa = [0x0403u16, 0x0804, 0x1a0a, 0x1a1a];
-    let alpns: Vec<Option<Vec<String>>> = vec![None, Some(vec![s("h2")]), Some(vec![s("http/1.1")]), Some(vec![s("h2"), s("http/1.1")]), Some(vec![s("h3")]), Some(vec![s("hq-29"), s("h2")]), Some(vec![s("**"), s("h2")]), Some(vec![s("::")]), Some(vec![s("_sip")]), Some(vec![s("h2-")]), Some(vec![s("a b")]), Some(vec![s(" x"), s("h2")])];
+    let alpns: Vec<Option<Vec<String>>> = vec![None, Some(vec![s("h2")]), Some(vec![s("http/1.1")]), Some(vec![s("h2"), s("http/1.1")]), Some(vec![s("h3")]), Some(vec![s("hq-29"), s("h2")]), Some(vec![s("**"), s("h2")]), Some(vec![s("::")]), Some(vec![s("_sip")]), Some(vec![s("h2-")]), Some(vec![s("a b")]), Some(vec![s(" x"), s("h2")]), Some(vec![s("\u{e9}2")]), Some(vec![s("h\u{e9}")]), Some(vec![s("\u{65e5}\u{672c}"), s("h2")]), Some(vec![s("h2\u{1f600}")])];
     for sub in subsets(&sa, 0, 4) {
         for order in perms(&sub) {
             for al in &alpns {
